@@ -62,6 +62,8 @@ pub fn main(args: &Args, seed: u64, mode: &str, mut sh: Shard) -> i32 {
             wd.yield_every.set(1 + (tid as u32 % 3));
             wd.judge_idle_after_unwind.set(true);
             crate::run::NO_BULK.with(|b| b.set(true));
+            *wd.run_mode.borrow_mut() = mode.clone();
+            *wd.run_props.borrow_mut() = props.iter().cloned().collect();
             let mut tsh = Shard { cfg: RunCfg { mode: mode.clone(), props: props.clone(), verbose: false, leak_check: false }, rep: Report::new(), base_args: base_args.clone(), stop: false, mode_props_seen: 0 };
             let mut windows = 0u64;
             let mut idx = 0u64;
